@@ -41,7 +41,7 @@ m = re.search(r"(\d+) passed; (\d+) failed", out)
 meta["unit_tests_with_change"] = out.strip()
 meta["suite_passes_with_change"] = bool(m and m.group(1) == "2542" and m.group(2) == "0")
 meta["ran"].append("with change: cargo test --offline --lib -> " + out.strip())
-rc, out = sh("cargo test --offline --test demo_break 2>&1 | grep -E 'test result|panicked' | head -5", wt)
+rc, out = sh("cargo test --offline --test demo_break 2>&1 | grep -E 'test result' | head -5", wt)
 meta["demo_fails_with_change"] = "FAILED" in out or "failed" in out
 meta["ran"].append("with change: cargo test --offline --test demo_break -> " + ("fails (as required)" if meta["demo_fails_with_change"] else "PASSES"))
 for f in ("patch.diff", "demo_break.rs", "notes.md"):
